@@ -168,6 +168,48 @@ func checkC18(c *Ctx) error {
 			}
 		}
 	})
+	// the same bytes as a file and on stdin: bodies generated by the model (blank space around the lines)
+	var bodies []string
+	st3, err := c.runTLC(TLCRun{Module: "MC_Args", Seed: c.Seed, Timeout: 10 * time.Minute, Workers: 4,
+		Constants: map[string]string{"Mode": `= "stdin"`, "Export": "= TRUE"}, Invs: []string{"ExportCase"}}, func(raw []byte) error {
+		var b struct {
+			Body string `json:"body"`
+		}
+		if err := mustJSON(raw, &b); err != nil {
+			return err
+		}
+		mu.Lock()
+		bodies = append(bodies, b.Body)
+		mu.Unlock()
+		return nil
+	})
+	if err != nil {
+		return err
+	}
+	sort.Strings(bodies)
+	bodies = uniq(bodies)
+	broot, err := c.newSandbox("bodies")
+	if err != nil {
+		return err
+	}
+	bt := Tree{}
+	for i, b := range bodies {
+		bt[fmt.Sprintf("regex-assembly/%06d.ra", 940000+i)] = b
+	}
+	if err := writeTree(broot, bt); err != nil {
+		return err
+	}
+	parallel(len(bodies), 16, func(i int) {
+		r := c.runCLI(broot, "", "-d", broot, "regex", "generate", fmt.Sprintf("%06d", 940000+i))
+		r2 := c.runCLI(broot, bodies[i], "-d", broot, "regex", "generate", "-")
+		atomic.AddInt64(&cli, 2)
+		if r.Stdout != r2.Stdout || r.Exit != r2.Exit {
+			c.violation("stdin", map[string]any{"bytes": bodies[i], "why": fmt.Sprintf("generate with the file argument prints %q (exit %d), with the same bytes on stdin %q (exit %d)", r.Stdout, r.Exit, r2.Stdout, r2.Exit)})
+		}
+		if strings.TrimSpace(bodies[i]) != bodies[i] {
+			c.markNontrivial("body:" + bodies[i])
+		}
+	})
 	// format: rule arguments name assembly files, other names include files
 	for _, fa := range []struct{ arg, path string }{{"932100", "regex-assembly/932100.ra"}, {"932100-chain7.ra", "regex-assembly/932100-chain7.ra"}, {"words", "regex-assembly/include/words.ra"}, {"words.ra", "regex-assembly/include/words.ra"}} {
 		before, _ := snapshot(root)
@@ -224,15 +266,27 @@ func checkC18(c *Ctx) error {
 		}
 	}
 	c.addSample(map[string]any{"root_case": roots[0]})
-	c.countEval(len(args) + len(roots))
-	c.Cov["states"] = st1.Distinct + st2.Distinct
+	c.countEval(len(args) + len(roots) + len(bodies))
+	c.Cov["states"] = st1.Distinct + st2.Distinct + st3.Distinct
+	c.Cov["stdin_bodies"] = len(bodies)
 	c.Cov["transitions"] = st1.Generated + st2.Generated + st2.Distinct
 	c.Cov["argument_cases"] = len(args)
 	c.Cov["root_cases"] = len(roots)
-	c.Cov["traces_validated_against_impl"] = len(args) + len(roots)
+	c.Cov["traces_validated_against_impl"] = len(args) + len(roots) + len(bodies)
 	c.Cov["cli_executions"] = cli
 	c.Cov["exhaustive"] = c.Tier == "thorough"
-	c.Cov["rule"] = "argument strings assembled from 3 x 5 x 15 x 6 x 3 pieces (junk, digits of other lengths, chain offsets 0,1,7,255,256,300,65536,2^64, empty, negative, leading zeros, wrong case, extensions, junk); every string is resolved by the spec (Args!Resolve) and by the real generate (marker literal per file shows which file was read; decoy files exist for wrapped offsets 256->0 and 300->44), generate from stdin, and update on a chain of 9 links (shows the offset used); 182 root cases (7 layouts incl. nested roots, a root below another root's regex-assembly directory and below a directory named regex-assembly-old x 13 start directories x -d or cwd); non-trivial = accepted argument or argument with a chain part"
+	c.Cov["rule"] = "argument strings assembled from 3 x 5 x 15 x 6 x 3 pieces (junk, digits of other lengths, chain offsets 0,1,7,255,256,300,65536,2^64, empty, negative, leading zeros, wrong case, extensions, junk); every string is resolved by the spec (Args!Resolve) and by the real generate (marker literal per file shows which file was read; decoy files exist for wrapped offsets 256->0 and 300->44), generate from stdin, and update on a chain of 9 links (shows the offset used); " + fmt.Sprint(len(bodies)) + " file bodies assembled from 4 x 2 x 9 x 8 pieces (blank space, tabs, CR, form feed, empty lines before, between and after the lines, with and without final newline) given once as file argument and once as the same bytes on stdin; 182 root cases (7 layouts incl. nested roots, a root below another root's regex-assembly directory and below a directory named regex-assembly-old x 13 start directories x -d or cwd); non-trivial = accepted argument or argument with a chain part"
 	c.Summary = fmt.Sprintf("args=%d roots=%d cli=%d", len(args), len(roots), cli)
 	return nil
+}
+
+// uniq removes adjacent duplicates of a sorted slice.
+func uniq(s []string) []string {
+	var out []string
+	for i, x := range s {
+		if i == 0 || x != s[i-1] {
+			out = append(out, x)
+		}
+	}
+	return out
 }
